@@ -20,6 +20,7 @@ pub mod parse;
 pub mod c04;
 pub mod c20;
 pub mod c12;
+pub mod c13;
 pub mod c14;
 
 pub fn dispatch(ctx: &mut Ctx) {
@@ -35,6 +36,7 @@ pub fn dispatch(ctx: &mut Ctx) {
         "C04" => c04::check(ctx),
         "C20" => c20::check(ctx),
         "C12" => c12::check(ctx),
+        "C13" => c13::check(ctx),
         "C14" => c14::check(ctx),
         "C16" => c16::check(ctx),
         "C19" => c19::check(ctx),
